@@ -65,12 +65,16 @@ def replay_form(p: dict) -> int:
     nw, nc, nx, shape, nA, width, cel = formcheck.kernel_layout(fref, itd)
     kns = fd.kernels_for(p["itype"], p["sid"])
     kn = p["kernel"] if p["kernel"] in kns else kns[0]
-    kern = m.kernels[ids[kn].tt[scalar]]
+    kerns = [m.kernels[ids[k].tt[scalar]] for k in kns if ids[k].domain == ids[kn].domain]
+    kern = kerns[0]
     ctx = Ctx()
     inp = uflref.Inputs(ctx, nw, nc, nx, fref.complex_mode)
     ents = tuple(p["ents"])
     facet_cell = ids[kn].domain if p["itype"] in ("exterior_facet", "interior_facet") else None
-    R = uflref.integrate_group(ctx, inp, fref, itd, entities=ents, kernel_facet_cell=facet_cell)
+    R = {}
+    for d_ in fref.fd.integral_data:
+        if d_.integral_type == p["itype"] and p["sid"] in formcheck.sid_list(d_):
+            R = uflref.av_add(uflref.AV(R), uflref.AV(uflref.integrate_group(ctx, inp, fref, d_, entities=ents, kernel_facet_cell=facet_cell))).d
     zero = CPoly(ctx.const(0), ctx.const(0)) if fref.complex_mode else ctx.const(0)
     Rf = formcheck.to_flat(R, shape, nA, zero)
     env = {k: float(v) for k, v in p["env"].items()}
@@ -78,7 +82,9 @@ def replay_form(p: dict) -> int:
         if v.defn is None:
             env.setdefault(v.name, 0.0)
     w, cc, x = ksym.pack(inp, env)
-    Ac = ksym.call_c_kernel(lib, kern, nA, w, cc, x, ents, (0, 0))
+    Ac = None
+    for k_ in kerns:
+        Ac = ksym.call_c_kernel(lib, k_, nA, w, cc, x, ents, (0, 0), A0=Ac)
     lab = p["entry"]
     idx = int(lab.split(".")[0])
     kval = Ac[idx]
